@@ -1,3 +1,4 @@
 import PynProps.C01
 import PynProps.C02
 import PynProps.C03
+import PynProps.C15
